@@ -175,4 +175,7 @@ func TestC01(t *testing.T) {
 }
 
 // TestC01Large: see heldBackHistories.
-func TestC01Large(t *testing.T) { runHeldBack(t, hC01, "TestC01", propC01) }
+func TestC01Large(t *testing.T) {
+	runHeldBack(t, hC01, "TestC01", propC01)
+	runLongEvents(t, hC01, "TestC01", propC01)
+}
